@@ -101,7 +101,13 @@ fn main() {
         for s in spaces(&tier) {
             c.cases(s.as_ref());
         }
-        let census = conv::impl_census();
+        let mut driven: Vec<String> = Vec::new();
+        for c in conv::enum_cases().iter().chain(conv::value_cases(&tier).iter()).chain(handlers::cases(&tier).iter()) {
+            if !driven.contains(&c.conv) {
+                driven.push(c.conv.clone());
+            }
+        }
+        let census = conv::impl_census(&driven);
         c.finish(
             "model_checking",
             "finite products, every member executed against the real binding crate (dnp3-ffi built as an rlib from /repo): \
